@@ -919,7 +919,7 @@ def judge_fetch(res, case, vfs, info, top, obs, mode):
                 _viol(res, 'C19.fetch', 'top-sheet-not-fetched-once', case, 1, (parse_log + flat_log).count(top))
             parse_log = [u for u in parse_log if u != top]
     all_log = parse_log + flat_log
-    kept_nested = {t for t, _m in ref.flatten(vfs, top)['imports'] for n, inf in info.items() if inf['url'] == t and len(inf['path']) > 1}
+    kept_nested = set(ref.flatten(vfs, top)['kept_nested'])
     for u in avail:
         c = all_log.count(u)
         if c != 1:
